@@ -68,6 +68,11 @@ class PyPath:
         self.p = p
 
 
+class ModuleGlobals:
+    def __init__(self, module):
+        self.module = module
+
+
 class SuperProxy:
     def __init__(self, obj, cls):
         self.obj = obj
@@ -849,6 +854,13 @@ class Executor:
         return self.getitem(o, k)
 
     def getitem(self, o, k):
+        if isinstance(o, ModuleGlobals):
+            if not isinstance(k, str):
+                raise Unsupported('globals()[symbolic]')
+            try:
+                return self.lookup_global(k, o.module)
+            except PyRaise:
+                raise PyRaise('KeyError', k)
         if isinstance(o, (list, tuple, str)):
             if isinstance(k, Sym):
                 raise Unsupported('symbolic index')
@@ -882,6 +894,8 @@ class Executor:
         root = fn_src.split('.')[0]
         if root in LOG_NAMES or fn_src == 'print':
             return None
+        if fn_src == 'globals' and not n.args:
+            return ModuleGlobals(env.module)
         if fn_src == 'super' and not n.args and self.func_stack and self.func_stack[-1].cls is not None:
             fi = self.func_stack[-1]
             first = fi.node.args.args[0].arg
@@ -1309,6 +1323,8 @@ class Executor:
             return list(v)
         if v is None:
             raise PyRaise('TypeError', "'NoneType' object is not iterable")
+        if isinstance(v, Obj) and '__iter_items__' in v.attrs:
+            return list(v.attrs['__iter_items__'])
         if isinstance(v, Obj) and v.cls is not None and v.cls.find_method('__iter__'):
             return self.iterate(self.call_repo(v.cls.find_method('__iter__'), [], {}, v))
         raise Unsupported('iteration over %r' % type(v).__name__)
